@@ -91,18 +91,30 @@ def install(I):
                 b += [AInt(8, 0, 255, l.kz & 0xFF, l.ko & 0xFF), AInt(8, 0, 255, (l.kz >> 8) & 0xFF, (l.ko >> 8) & 0xFF)]
         return Vec(ty, b)
 
-    def vterm(name, args):
+    def vterm(name, args, w=128):
         if not T.ENABLED:
             return None
         ts = []
-        for a in args:
+
+        def add(a):
+            if isinstance(a, (Struct, Arr)):          # uint8x16x4_t and friends: the terms of the member vectors
+                for x in (a.f if isinstance(a, Struct) else a.e):
+                    if not add(x):
+                        return False
+                return True
             t = getattr(a, 'term', None)
             if t is None and isinstance(a, AInt) and a.const is not None:
                 t = T.const(a.w, a.const)
+            if t is None and isinstance(a, Vec) and all(isinstance(x, AInt) and x.const is not None for x in a.b):
+                t = T.const(8 * len(a.b), sum(x.const << (8 * j) for j, x in enumerate(a.b)))
             if t is None:
-                return None
+                return False
             ts.append(t)
-        return T.op(name, 128, *ts)
+            return True
+        for a in args:
+            if not add(a):
+                return None
+        return T.op(name, w, *ts)
 
     # ---------------------------------------------------------------- memory
     def locate(st, p, n):
@@ -299,7 +311,7 @@ def install(I):
         if STORES.match(short):
             vstore(frame, st, args[0], args[1], short, short == '_mm_store_si128')
             return UNIT
-        vt = lambda: vterm(short + ('#%d' % imm if imm is not None else ''), args)
+        vt = lambda w=128: vterm(short + ('#%d' % imm if imm is not None else ''), args, w)
         if short in ('_mm_setzero_si128',):
             return Vec(rt, [cint(8, 0)] * 16, vt())
         if short == '_mm_set_epi64x':
@@ -330,7 +342,7 @@ def install(I):
         if short in ('_mm_extract_epi16',) and imm is not None:
             a = asvec(args[0], None)
             l = lanes16(a)[imm & 7]
-            return AInt(32, l.lo, l.hi, l.kz | 0xFFFF0000, l.ko, True, vt())
+            return AInt(32, l.lo, l.hi, l.kz | 0xFFFF0000, l.ko, True, vt(32))
         if short in ('vcreate_u8', 'vcreate_u16', 'vcreate_u32', 'vcreate_u64') and isinstance(args[0], AInt):
             return Vec(rt, flatten_int(args[0]), vt())
         if short.startswith('vcombine_'):
@@ -356,21 +368,21 @@ def install(I):
         if short == 'vgetq_lane_u16' and imm is not None:
             a = asvec(args[0], None)
             l = lanes16(a)[imm & 7]
-            return AInt(16, l.lo, l.hi, l.kz, l.ko, False, vt())
+            return AInt(16, l.lo, l.hi, l.kz, l.ko, False, vt(16))
         if short == 'vgetq_lane_u8' and imm is not None:
             a = asvec(args[0], None)
             x = a.b[imm & 15]
-            return AInt(8, x.lo, x.hi, x.kz, x.ko, False, vt())
+            return AInt(8, x.lo, x.hi, x.kz, x.ko, False, vt(8))
         if short.startswith('_mm_cvtsi128_si'):
             w = 64 if '64' in short else 32
-            return topint(w, True, vt())
+            return topint(w, True, vt(w))
         if short.startswith('_mm_movemask'):
             return AInt(32, 0, 0xFFFF, signed=True)
         if short in ('_xgetbv',):
             return topint(64)
         ii = I.int_info(rt) if rt is not None else None
         if ii:
-            return topint(ii[0], ii[1], vt())
+            return topint(ii[0], ii[1], vt(ii[0]))
         d = I.types[rt] if rt is not None else None
         if d is not None and d.get('size') == 0:
             return I.zst(rt)
